@@ -64,7 +64,8 @@ Refill(n) ==
 (* closure's own count across feeds - a callback that asked one feed to stop IS invoked again by the next (Offered)      *)
 NewSink(kind, stop) ==
   /\ kind \in {"closure", "vec", "extend"}
-  /\ (kind # "closure" => stop = 0)
+  \* for a Vec target `stop` is only the capacity the vector was made with (Vec::with_capacity): collecting never stops
+  /\ (kind = "extend" => stop = 0)
   /\ sink' = [kind |-> kind, stop |-> stop, calls |-> 0, got |-> <<>>]
   /\ drops' = Bump(drops, Range(sink.got))
   /\ UNCHANGED <<src, hasSrc, wrapped, nextId>>
@@ -75,7 +76,7 @@ NewSink(kind, stop) ==
 (* Vec and Extend callbacks always return true; the closure returns false from its stop-th  *)
 (* invocation on.                                                                            *)
 Offered(n) ==
-  IF sink.kind # "closure" \/ sink.stop = 0 THEN n
+  IF sink.kind # "closure" \/ sink.stop = 0 THEN n   \* Vec / Extend targets take everything, whatever room they had
   ELSE IF n = 0 THEN 0
   ELSE IF sink.calls >= sink.stop THEN 1
   ELSE Min(n, sink.stop - sink.calls)
